@@ -367,10 +367,16 @@ func c12exec(c *h.Ctx, cs *h.Case) {
 				var order []int
 				seen := map[int]bool{}
 				perm := len(nr.List) == n
+				pos := map[string]int{}
+				for i, o := range ro.List {
+					b, _ := o.Public.MarshalBinary()
+					pos[string(b)] = i
+				}
 				for _, si := range nr.List {
 					at := -1
-					for i, o := range ro.List {
-						if si != nil && si.Public != nil && si.Public.Equal(o.Public) {
+					if si != nil && si.Public != nil {
+						b, _ := si.Public.MarshalBinary()
+						if i, ok := pos[string(b)]; ok {
 							at = i
 						}
 					}
